@@ -169,7 +169,7 @@ def _build_meta(spec):
 def _build_maze(ms):
     from maze_dataset import SolvedMaze
     cl = np.array([c == "1" for c in ms["conn"]], dtype=bool).reshape(ms["shape"])
-    return SolvedMaze(connection_list=cl, solution=np.array(ms["sol"], dtype=np.int64), generation_meta=_build_meta(ms.get("meta")))
+    return SolvedMaze(connection_list=cl, solution=np.array(ms["sol"], dtype=ms.get("sol_dtype", "int64")), generation_meta=_build_meta(ms.get("meta")))
 
 
 def _build_dataset(case):
@@ -688,6 +688,7 @@ def _gen_items(rng):
             src = rng.choice(items)
             if mode == "dups" or rng.random() < 0.3:
                 new = dict(src)
+                if rng.random() < 0.4: new["sol_dtype"] = "int8"      # an exact duplicate BY VALUE stored the way a reloaded minimal-format file stores it
             else:
                 r = rng.random()
                 new = _flip_bit(rng, src) if r < 0.4 else (_nudge_sol(rng, src, 1) if r < 0.8 else _nudge_sol(rng, _flip_bit(rng, _flip_bit(rng, src)), 2))
@@ -1044,6 +1045,35 @@ def _edit_sequences(ctx, n):
         ctx.count("edit_in_place_sequences")
 
 
+def _large_sequences(ctx, n):
+    """datasets of 100..160 mazes (every size threshold of the library is 100): each filter judged like the small ones — exact selection,
+    provenance, and every earlier dataset (its mazes WITH their metadata, its config) untouched. Oracle only."""
+    rng = ctx.rng
+    for k in range(n):
+        size = rng.choice([100, 101, 130, 160])
+        base = [_gen_base_maze(rng, (2, 2), True) for _ in range(8)]
+        items = [dict(rng.choice(base)) for _ in range(size)]
+        for it in items:
+            if rng.random() < 0.5: it["meta"] = _fab_meta(rng)
+        case = {"kind": "seq", "cfg": {"name": "c08large", "grid_n": 2, "seed": 42}, "items": items, "ops": [], "mode": "large", "metamode": "mixed"}
+        ops = [{"kind": "reg", "name": "path_length", "args": [rng.choice([0, 1, 2])], "kwargs": []},
+               {"kind": "reg", "name": "start_end_distance", "args": [rng.choice([0, 1])], "kwargs": []},
+               {"kind": "reg", "name": "truncate_count", "args": [rng.choice([size, size - 1, 120])], "kwargs": []},
+               {"kind": "custom", "fname": "lenmod", "kwargs": [["k", 1], ["r", 0]]},
+               {"kind": "reg", "name": "strip_generation_meta", "args": [], "kwargs": []}]
+        case["ops"] = [rng.choice(ops) for _ in range(rng.randint(1, 3))]
+        small = dict(case, items=f"{size} mazes")
+        try:
+            _run_seq_real(ctx, case, oracle=True, want_model=False)
+        except Exception as e:
+            ctx.notes.append(f"large sequence stopped: {type(e).__name__}: {str(e)[:100]}")
+        ctx.case(json.dumps(dict(large=size, ops=case["ops"], k=k)), nontrivial=True); ctx.count("large_dataset_sequences")
+        if ctx.violations:
+            for v in ctx.violations:          # keep the replay small
+                if isinstance(v.get("case"), dict) and v["case"].get("mode") == "large": v["case"] = dict(v["case"], items=f"{size} mazes of 2x2 built from 8 base mazes", large=True)
+            return
+
+
 def run(ctx):
     warnings.filterwarnings("ignore")
     cases = []
@@ -1063,6 +1093,7 @@ def run(ctx):
     cases += [_gen_cfg_case(ctx.rng) for _ in range(n_cfg)]
     _table_check(ctx)
     _edit_sequences(ctx, 40 if ctx.quick else 800)
+    if not ctx.violations: _large_sequences(ctx, 6 if ctx.quick else 80)
     reqs, metas = [], []
     for case in cases:
         if case["kind"] == "seq":
@@ -1087,6 +1118,8 @@ def run(ctx):
 def search(ctx):
     """oracle-only, wider exploration of the real code; stops at the first violation"""
     warnings.filterwarnings("ignore")
+    _large_sequences(ctx, 20)
+    if ctx.violations: return
     for case in itertools.chain(_regression_cases(), _pair_cases()):
         _run_seq_real(ctx, case, oracle=True, want_model=False)
         ctx.case(_canon_case(case))
